@@ -267,9 +267,9 @@ class Conn:
             tr0 = transfers[0] if transfers else None
             if tr0 is not None and tr0[0].bytes_le[:8] == rpc.BTFN_PREFIX:
                 results.append((RESULT_NEG_ACK, 3 if name == "bind" else 0, uuid.UUID(int=0), 0))
-            elif cfg.accept_contexts and abstract == want_abstract and tr0 in (rpc.NDR64,):
-                results.append((RESULT_ACCEPT, 0, tr0[0], tr0[1] | (tr0[2] << 16)))
-                self.bound_contexts[cid] = (abstract, tr0)
+            elif cfg.accept_contexts and abstract == want_abstract and rpc.NDR64 in transfers:
+                results.append((RESULT_ACCEPT, 0, rpc.NDR64[0], rpc.NDR64[1] | (rpc.NDR64[2] << 16)))
+                self.bound_contexts[cid] = (abstract, rpc.NDR64)
             else:
                 results.append((RESULT_PROV_REJ, 2, uuid.UUID(int=0), 0))
         token_out = None
